@@ -88,3 +88,26 @@ Theorem written_file_reads_back : forall version n ts file,
                    ProofsContainer.same_but_adjustment t d d'.
 Proof. exact ProofsContainer.written_file_reads_back. Qed.
 Print Assumptions written_file_reads_back.
+
+(* ---- derived fields live on the order in which tables are compiled (ModelDeps.v: TTFont._writeTable): for ANY declared
+   dependencies, any set of tables in the font and any order in which save walks them, a table is compiled after every table it
+   depends on that the font has *)
+From FV Require C04.ModelDeps C04.ProofsDeps Data.Data_deps.
+Theorem compile_order_respects_dependencies : forall D present fuel tags done comp,
+  ModelDeps.save_order fuel D present tags = Some (done, comp) -> (forall t, In t tags -> In t present) ->
+  (forall t, In t tags -> In t comp) /\
+  (forall t d, In t comp -> In d (ModelDeps.deps_of D t) -> In d present -> ProofsDeps.before d t comp).
+Proof. exact ProofsDeps.compile_order_respects_dependencies. Qed.
+Print Assumptions compile_order_respects_dependencies.
+
+(* ... and the dependencies the table classes declare (Data_deps.v, regenerated from the source on every run) contain every pair
+   the derived fields need: hhea after hmtx, vhea after vmtx, loca and maxp after glyf, head after loca and maxp, gvar/avar/cvar
+   after fvar; and they have no cycle *)
+Theorem required_dependencies_declared : forallb ProofsDeps.declared ProofsDeps.required = true.
+Proof. exact ProofsDeps.required_dependencies_declared. Qed.
+Print Assumptions required_dependencies_declared.
+Theorem declared_dependencies_acyclic :
+  forallb (fun r => forallb (fun d => Nat.ltb (ProofsDeps.rankf 8 d) (ProofsDeps.rankf 8 (fst r))) (snd r)) Data_deps.table_dependencies = true
+  /\ forallb (fun r => Nat.ltb (ProofsDeps.rankf 8 (fst r)) 5) Data_deps.table_dependencies = true.
+Proof. exact ProofsDeps.declared_dependencies_acyclic. Qed.
+Print Assumptions declared_dependencies_acyclic.
